@@ -51,6 +51,12 @@ type Case struct {
 	ConnTimeoutUS int64 `json:"conn_timeout_us"`
 	// RootAttrs: namespace declarations in the reply's root start tag in front of the message-id
 	RootAttrs int `json:"root_attrs,omitempty"`
+	// ReopenAt > 0 (1.0 sessions): before this call the driver is closed and opened again against a
+	// fresh server: what the first session left behind (late replies filed under their ids) is not
+	// a reply to anything the second session asks
+	ReopenAt int `json:"reopen_at,omitempty"`
+	// TransitUS: the transit bound the timeouts were drawn above (kept for the pause before a re-open)
+	TransitUS int64 `json:"transit_us,omitempty"`
 }
 
 func gen(t *rapid.T) Case {
@@ -167,6 +173,12 @@ func gen(t *rapid.T) Case {
 		c.RPCs = append(c.RPCs, r)
 	}
 
+	c.TransitUS = transitUS
+
+	if c.Version == "1.0" && len(c.RPCs) >= 2 && rapid.IntRange(0, 2).Draw(t, "reopen") == 0 {
+		c.ReopenAt = rapid.IntRange(1, len(c.RPCs)-1).Draw(t, "reopenAt")
+	}
+
 	return c
 }
 
@@ -186,7 +198,13 @@ func run(c Case) ev.Verdict {
 		Version: c.Version,
 		Echo:    c.Echo,
 	}
+	// (a second session gets a server of its own; request indices go on counting)
+	base := 0
+	var earlier []sim.NCRequest
+
 	srv.OnRequest = func(r sim.NCRequest) []sim.NCAction {
+		r.Index += base
+
 		if r.Index >= len(c.RPCs) {
 			return nil
 		}
@@ -265,6 +283,34 @@ func run(c Case) ev.Verdict {
 	// upper bound on the time a complete reply needs to travel through read loop and poll loop:
 	// bytes/min-chunk reads, each costing at most a read delay + generated delay + loop sleeps
 	for i, spec := range c.RPCs {
+		if c.ReopenAt > 0 && i == c.ReopenAt {
+			// whatever the server still owes the first session has arrived by now
+			prev := c.RPCs[i-1]
+			time.Sleep(time.Duration(prev.TimeoutUS+prev.DelayUS+2*c.TransitUS) * time.Microsecond)
+
+			closed := make(chan error, 1)
+			go func() { closed <- d.Close() }()
+
+			select {
+			case <-closed:
+			case <-time.After(time.Hour):
+				return ev.Fail("Close before the second session did not return")
+			}
+
+			earlier = append(earlier, srv.Requests...)
+			base = i
+
+			fresh := &sim.NCServer{Hello: srv.Hello, Version: srv.Version, Echo: srv.Echo, OnRequest: srv.OnRequest, Pipe: pipe}
+			pipe.Reset(fresh)
+			srv = fresh
+
+			if err = d.Open(); err != nil {
+				return ev.Fail("second Open of the same (1.0) driver: %v", err)
+			}
+
+			v.Classes = append(v.Classes, "re-opened")
+		}
+
 		timeout := time.Duration(spec.TimeoutUS) * time.Microsecond
 		oo := []util.Option{opoptions.WithTimeoutOps(timeout)}
 
@@ -320,8 +366,8 @@ func run(c Case) ev.Verdict {
 
 		// the id this call's request carried on the wire (requests are issued one at a time)
 		wantID := ""
-		if i < len(srv.Requests) {
-			wantID = srv.Requests[i].MessageID
+		if i-base < len(srv.Requests) {
+			wantID = srv.Requests[i-base].MessageID
 		}
 
 		if err != nil {
@@ -385,8 +431,22 @@ func run(c Case) ev.Verdict {
 	}
 
 	// ids seen by the server: one per call, unique and strictly increasing (the start is not fixed)
-	if len(srv.Requests) != len(c.RPCs) {
-		return ev.Fail("server saw %d requests for %d calls (broken framing: %q)", len(srv.Requests), len(c.RPCs), srv.Broken)
+	if len(earlier)+len(srv.Requests) != len(c.RPCs) {
+		return ev.Fail("server saw %d requests for %d calls (broken framing: %q)", len(earlier)+len(srv.Requests), len(c.RPCs), srv.Broken)
+	}
+
+	// (ids are judged per session: whether a second session goes on counting is not fixed)
+	if len(earlier) > 0 {
+		prevID := 0
+
+		for _, r := range earlier {
+			n, aerr := strconv.Atoi(r.MessageID)
+			if aerr != nil || n <= prevID {
+				return ev.Fail("message-ids of the first session are not strictly increasing numbers")
+			}
+
+			prevID = n
+		}
 	}
 
 	prevID := 0
